@@ -1,6 +1,8 @@
 #!/usr/bin/env python3
 """Registers confirmed seeded changes under /verif/seeded/<PID>-<k>/ and records which checks catch them.
-usage: tools_seed_register.py <PID> <k> <check-PID>[,<check-PID>...]   (runs the checks with the patch applied to /repo, then reverts)"""
+usage: tools_seed_register.py <PID> <k> <check-PID>[,<check-PID>...]   (runs the checks with the patch applied to /repo, then reverts)
+With VERIF_REG_REPO=<scratch git copy of /repo HEAD> the patch is applied there and the checks read that tree (PYTHONPATH, PYVC_REPO_SRC):
+used while a long run occupies /repo itself."""
 import json, os, shutil, subprocess, sys, re
 pid, k, checks = sys.argv[1], sys.argv[2], sys.argv[3].split(",")
 src = "/tmp/seed/out_%s/%s" % (pid, k)
@@ -15,18 +17,22 @@ os.makedirs(dst, exist_ok=True)
 shutil.copy(src + "/patch.diff", dst + "/patch.diff")
 shutil.copy(src + "/demo.py", dst + "/demo.py")
 agent = json.load(open(src + "/meta.json"))
-subprocess.check_call(["git", "-C", "/repo", "apply", src + "/patch.diff"])
+REPO = os.environ.get("VERIF_REG_REPO", "/repo")
+ENV = dict(os.environ)
+if REPO != "/repo":
+    ENV.update(PYTHONPATH=REPO, PYVC_REPO_SRC=REPO)
+subprocess.check_call(["git", "-C", REPO, "apply", src + "/patch.diff"])
 caught = {}
 try:
     for c in checks:
-        out = subprocess.run(["./check", c, "--no-evidence"], cwd="/verif", capture_output=True, text=True).stdout
+        out = subprocess.run(["./check", c, "--no-evidence"], cwd="/verif", capture_output=True, text=True, env=ENV).stdout
         code = re.search(r"exit=(\d)", out.strip().splitlines()[-1]).group(1)
         obls = sorted(set(re.findall(r"^  obligation: (.*)$", out, re.M)))
         viol = [l for l in out.splitlines() if l.startswith("VIOLATION")]
         caught[c] = dict(exit=int(code), violations=len(viol), replayed_on_real_code=len([v for v in viol if "no-failing-input-found" not in v]),
                          undecided=len([l for l in out.splitlines() if l.startswith("UNDECIDED")]), obligations=obls[:6])
 finally:
-    subprocess.check_call(["git", "-C", "/repo", "checkout", "--", "."])
+    subprocess.check_call(["git", "-C", REPO, "checkout", "--", "."])
 meta = dict(property=pid, files_changed=agent.get("files_changed"), what_it_breaks=agent.get("what_it_breaks"),
             needs_to_manifest=agent.get("needs_to_manifest"),
             produced_by="fresh sub-agent given only the property text and a scratch worktree of /repo",
